@@ -23,7 +23,9 @@ def em_read(path):
     if len(raw) < 512:
         raise ValueError("EM file shorter than header")
     machine, _, _, tcode = raw[0], raw[1], raw[2], raw[3]
-    endian = "<" if machine in (0, 3, 5, 6) else ">"
+    # machine coding byte of the EM/TOM definition: 1 = VAX and 6 = PC store little-endian, 0 = OS-9, 2 = Convex, 3 = SGI,
+    # 5 = Mac big-endian; the rest of the header and the data have to be read accordingly
+    endian = "<" if machine in (1, 6) else ">"
     x, y, z = struct.unpack(endian + "iii", raw[4:16])
     dt = np.dtype(EM_TYPES[tcode]).newbyteorder(endian)
     n = x * y * z
@@ -46,7 +48,7 @@ def em_motl_mismatch(path, df):
     if em["dims"] != (20, len(df), 1):
         return "dims"
     want = df[MOTL_COLUMNS].to_numpy(dtype=np.float32)
-    return None if np.array_equal(em["data"][:, :, 0].T, np.nan_to_num(want)) else "values"
+    return None if np.array_equal(em["data"][:, :, 0].T, np.where(np.isnan(want), np.float32(0), want)) else "values"
 
 
 MRC_MODES = {0: np.int8, 1: np.int16, 2: np.float32, 6: np.uint16, 12: np.float16}
